@@ -634,6 +634,7 @@ struct EngineOptions {
     std::string prop;
     bool hasLabelSets = false;
     bool exactWeights = true;
+    bool pairValues = false; // C16: label / weight / multiplicity is a function of the pair
     size_t maxN = 12;
 };
 
@@ -757,12 +758,18 @@ struct Engine {
             bool force = fl & 1;
             bool dfltOverload = (fl & 2) || k == "add1";
             double w = op.d(3);
+            if (opt.pairValues) {
+                UPair kk = m.key(i, j);
+                x = 1 + (kk.first * 5 + kk.second * 3) % 7;
+                w = x / 8.0;
+                dfltOverload = false;
+            }
             if constexpr (T::fam == 'L') {
                 x = ((x % LABEL_K) + LABEL_K) % LABEL_K;
                 if (dfltOverload || T::nolabel)
                     x = 0;
             } else if constexpr (T::fam == 'M') {
-                if (k == "add1")
+                if (k == "add1" && !opt.pairValues)
                     x = 1;
                 if (x < 0)
                     x = -x;
@@ -779,7 +786,7 @@ struct Engine {
                     call([&] { g.addEdge(i, j, mkLabel(x), force); });
                 }
             } else if constexpr (T::fam == 'M') {
-                if (k == "add1") {
+                if (k == "add1" && !opt.pairValues) {
                     tr("addEdge(" + ps(i, j) + (force ? ",true)" : ")"));
                     call([&] { g.addEdge(i, j, force); });
                 } else {
@@ -1190,10 +1197,37 @@ struct Engine {
                 return "a call documented to change nothing changed the observable state:\n--- before\n" + before + "--- after\n" + lastExact;
             }
         }
+        if (op.kind == "dedup" && opt.prop == "C16")
+            return checkEqualsRebuilt(observer);
         return "";
     }
 
     std::string start(std::string &observer) { return checkNow(observer); }
+
+    // C16: once no duplicate is left, the graph must equal the one built from the
+    // model with unforced calls only.
+    std::string checkEqualsRebuilt(std::string &observer) {
+        if (m.anyDup())
+            return "";
+        G h(m.n);
+        for (auto &p : m.e) {
+            unsigned i = p.first.first, j = p.first.second;
+            if constexpr (T::fam == 'L')
+                h.addEdge(i, j, mkLabel(p.second.k));
+            else if constexpr (T::fam == 'M')
+                h.addMultiedge(i, j, (unsigned)p.second.k);
+            else
+                h.addEdge(i, j, p.second.w);
+        }
+        facts.tag("eq_rebuilt_checked");
+        bool a = (g == h), b = (h == g), c = (g != h);
+        if (!a || !b || c) {
+            observer = "operator==(rebuilt-without-force)";
+            return std::string("after removeDuplicateEdges the graph does not equal the one built from the same pairs without force: g==h ") +
+                   (a ? "true" : "false") + ", h==g " + (b ? "true" : "false") + ", g!=h " + (c ? "true" : "false");
+        }
+        return "";
+    }
 };
 
 // helper to fill a verif_result
